@@ -135,9 +135,6 @@ pub fn check(q: &Q, conts: &[Vec<u8>]) -> Option<String> {
             if mid {
                 return Some(format!("returned Some({}) although the decoder is mid-sequence (end of stream here is an error)", n));
             }
-            if cur_algo == Algo::Iso2022Jp && q.mode == BomMode::None && !crate::model_dec::iso2022jp_initial_state_after(&q.prefix) {
-                return Some(format!("returned Some({}) although the Standard's ISO-2022-JP decoder is not in its initial state after these bytes (an escape sequence is in effect or pending)", n));
-            }
             // feeding buf[..n] must yield exactly those byte values
             let mut t = q.mode.new_decoder(q.enc);
             feed(&mut t, &q.prefix, false)?;
